@@ -58,8 +58,7 @@ Record Rel (s : st) (t : spec) (front back : list gid) : Prop := {
                     alookup g (t_st t) = Some SAct
 }.
 
-(* no kill mark on a generator the processor does not know (broken only by
-   the known finding K9) *)
+(* no kill mark on a generator the processor does not know *)
 Definition NoLeak (s : st) : Prop :=
   forall g, memz g (killq s) = true -> amem g (gens s) = true.
 
